@@ -23,6 +23,7 @@ pub fn def() -> CheckDef {
         assumptions: &["counts returned by single read()/write()/fill_buf() calls are a relation (1..=min(requested, available)); only their bytes are compared"],
         cpu_limit_s: 60,
         fault_kinds: "none (configuration knob max_buffer_size swept so the buffer-miss paths run)",
+        count_subruns: false,
     }
 }
 
